@@ -42,8 +42,25 @@ TableVerdict(t) ==
      ELSE IF bad(LAMBDA o, e : o.others_ok) THEN "table_other_metrics"
      ELSE "ok"
 
+\* h = "chain": the pipeline of analysis.plot -- each helper applied to the RESULT of the previous one
+ChainVerdict(t) ==
+  LET g == ToGraph(t.g)
+      tg == {t.targets[k] : k \in 1 .. Len(t.targets)}
+      r1 == Run(g, "non_float", <<0, 1>>, {})
+      r2 == Run(r1.g, "same_scale", <<t.rtol[1], t.rtol[2]>>, {})
+      r3 == Run(r2.g, "selected", <<0, 1>>, tg)
+  IN IF ~WellFormed(g) THEN "harness_input_graph_malformed"
+     ELSE IF r1.err # "" \/ r2.err # "" \/ r3.err # "" THEN "spec_result_violates_C19"
+     ELSE IF t.err # "" THEN "helper_raised"
+     ELSE IF Shape(ToGraph(t.after)) # Shape(g) THEN "input_graph_mutated"
+     ELSE LET out == ToGraph(t.out) IN
+          IF ~WellFormed(out) THEN "result_not_well_formed"
+          ELSE IF [k \in 1 .. Len(out) |-> out[k].id] # [k \in 1 .. Len(r3.g) |-> r3.g[k].id] THEN "wrong_nodes_or_order"
+          ELSE IF Shape(out) # Shape(r3.g) THEN "wrong_rewiring"
+          ELSE "ok"
+
 Verdict(t) ==
-  IF t.h = "table" THEN TableVerdict(t) ELSE
+  IF t.h = "table" THEN TableVerdict(t) ELSE IF t.h = "chain" THEN ChainVerdict(t) ELSE
   LET g == ToGraph(t.g)
       tg == {t.targets[k] : k \in 1 .. Len(t.targets)}
       r == Run(g, t.h, <<t.rtol[1], t.rtol[2]>>, tg)
